@@ -139,12 +139,14 @@ func judgeReader(res *hx.Result, drv *hx.Driver, e readerEval, shrink bool) bool
 // ---------- part (b) ----------
 
 type restoreJob struct {
-	env   *replicaEnv
-	hist  HistSpec
-	plan  []*ltx.FileInfo
-	mut   Mut
-	want  []byte
-	plant []byte // stale-tmp: bytes planted at <output>.tmp before the restore
+	env         *replicaEnv
+	hist        HistSpec
+	plan        []*ltx.FileInfo
+	mut         Mut
+	want        []byte
+	plant       []byte // stale-tmp: bytes planted at <output>.tmp before the restore; foreign-wal: the -wal
+	plant2      []byte // foreign-wal: the -shm
+	wantLogical string // foreign-wal: what SQLite must see in the restored database
 	// abstract inputs for the model
 	failStep string
 	faults   int
@@ -298,7 +300,14 @@ func runRestoreJobs(drv *hx.Driver, jobs []restoreJob, scratch string, par int) 
 			for i := range next {
 				j := jobs[i]
 				q := workerReq{Dir: j.env.dir, Mut: j.mut, OutDir: dir}
-				if j.mut.Kind == "stale-tmp" || (j.mut.Kind == "preexist" && j.mut.PreKind == "sqlite") {
+				if j.mut.Kind == "foreign-wal" {
+					q.Plant2 = filepath.Join(scratch, fmt.Sprintf("plant2-%d", slot))
+					os.MkdirAll(scratch, 0o755)
+					if err := os.WriteFile(q.Plant2, j.plant2, 0o644); err != nil {
+						hx.Fatal(err)
+					}
+				}
+				if j.mut.Kind == "stale-tmp" || j.mut.Kind == "foreign-wal" || (j.mut.Kind == "preexist" && j.mut.PreKind == "sqlite") {
 					q.Plant = filepath.Join(scratch, fmt.Sprintf("plant-%d", slot))
 					os.MkdirAll(scratch, 0o755)
 					if err := os.WriteFile(q.Plant, j.plant, 0o644); err != nil {
@@ -310,6 +319,7 @@ func runRestoreJobs(drv *hx.Driver, jobs []restoreJob, scratch string, par int) 
 				}
 				resp, crash := w.do(q)
 				out[i] = restoreOut{job: j, obs: inspect(j.mut, dir, j.want, resp, crash)}
+				out[i].obs.WantLogical = j.wantLogical
 				if resp == nil {
 					w = startWorker()
 				}
@@ -339,6 +349,18 @@ func judgeRestore(res *hx.Result, o restoreOut) bool {
 	canon := fmt.Sprintf("%d/%d/%+v", j.hist.Seed, j.hist.NTx, j.mut)
 	res.Case(canon, j.mut.Kind != "none")
 	res.Count("restore/" + j.mut.Kind + "->" + strings.SplitN(o.obs.Res, "(", 2)[0])
+	if j.mut.Kind == "foreign-wal" {
+		cls := "as-replica"
+		switch v := restoreOracle(j.mut, o.obs); {
+		case strings.Contains(v, "Restore failed"):
+			cls = "spurious-failure"
+		case strings.Contains(v, "output file differs"):
+			cls = "file-bytes-altered"
+		case strings.Contains(v, "different content"):
+			cls = "file-intact-but-hot-wal-replayed-on-open"
+		}
+		res.Count(fmt.Sprintf("restore/foreign-wal(%s,shm=%v,integrity=%d)->%s", j.mut.WalKind, j.mut.WithShm, j.mut.Integrity, cls))
+	}
 	if j.hist.BadImage != "" {
 		cls := "-"
 		if o.obs.Err != "" {
@@ -367,6 +389,8 @@ func judgeRestore(res *hx.Result, o restoreOut) bool {
 	// "rejected" and "immaterial"; the oracle above still demands byte-identical output.
 	if (j.mut.Kind == "flip" || j.mut.Kind == "disk-flip") && o.obs.Res == "ok" && !hx.Differs(o.obs.canon(), o.modelAlt) {
 		res.Count("restore/flip-immaterial(identical output)")
+	} else if j.mut.Kind == "foreign-wal" {
+		// no model comparison: the output-protocol model has no pre-existing sidecars (DESIGN.md Deviations)
 	} else if o.obs.Res != "CRASH" && hx.Differs(o.obs.canon(), o.model) {
 		bad = true
 		res.DisagreementsChecked++
@@ -429,6 +453,9 @@ func jobsFor(r *hx.Rand, env *replicaEnv, h HistSpec, scratch string, all bool, 
 		return jobs, nil
 	}
 	if err := staleTmpJobs(env, h, scratch, want, add); err != nil {
+		return nil, err
+	}
+	if err := foreignWalJobs(env, h, scratch, want, add); err != nil {
 		return nil, err
 	}
 	add(Mut{Kind: "none"}, nil)
@@ -791,6 +818,83 @@ func staleTmpJobs(env *replicaEnv, h HistSpec, scratch string, latest []byte, ad
 					w, p := tg.want, plant
 					add(m, func(j *restoreJob) { j.want, j.plant = w, p })
 				}
+			}
+		}
+	}
+	return nil
+}
+
+// foreignWalJobs: <output> is absent, but a VALID WAL lies at <output>-wal (SQLite treats a WAL next to a
+// database as hot): the un-checkpointed WAL of ANOTHER database with the same page size, or the WAL of an
+// earlier incarnation of the same output.  Restore (integrity none / quick / full) must yield a database
+// that SQLite opens with exactly the replica's content.
+func foreignWalJobs(env *replicaEnv, h HistSpec, scratch string, latest []byte, add func(Mut, func(*restoreJob))) error {
+	dir := filepath.Join(scratch, "fwal")
+	os.RemoveAll(dir)
+	if err := os.MkdirAll(dir, 0o755); err != nil {
+		return err
+	}
+	refPath := filepath.Join(dir, "ref", "restored.db")
+	os.MkdirAll(filepath.Dir(refPath), 0o755)
+	if err := os.WriteFile(refPath, latest, 0o644); err != nil {
+		return err
+	}
+	wantLogical := logicalDump(refPath)
+	// WAL of another database B (same page size, same table name, different rows, an extra table)
+	grab := func(path string, fresh bool) (wal, shm []byte, err error) {
+		d, err := sql.Open("sqlite", path)
+		if err != nil {
+			return nil, nil, err
+		}
+		defer d.Close()
+		d.SetMaxOpenConns(1)
+		var qs []string
+		if fresh {
+			qs = append(qs, fmt.Sprintf("PRAGMA page_size=%d", h.PageSize), "PRAGMA journal_mode=wal", "PRAGMA wal_autocheckpoint=0",
+				"CREATE TABLE t (id INTEGER PRIMARY KEY, v BLOB)", "INSERT INTO t (id, v) VALUES (1, randomblob(40)), (2, randomblob(40))",
+				"PRAGMA wal_checkpoint(TRUNCATE)")
+		} else {
+			qs = append(qs, "PRAGMA journal_mode=wal", "PRAGMA wal_autocheckpoint=0")
+		}
+		qs = append(qs, "CREATE TABLE foreign_extra (x)", "INSERT INTO foreign_extra VALUES ('from the other database')",
+			"INSERT INTO t (id, v) VALUES (900001, randomblob(300))", "UPDATE t SET v = randomblob(50) WHERE id IN (SELECT id FROM t ORDER BY id LIMIT 2)")
+		for _, q := range qs {
+			if _, err := d.Exec(q); err != nil {
+				return nil, nil, fmt.Errorf("%s: %w", q, err)
+			}
+		}
+		if wal, err = os.ReadFile(path + "-wal"); err != nil {
+			return nil, nil, err
+		}
+		shm, _ = os.ReadFile(path + "-shm")
+		return wal, shm, nil
+	}
+	fw, fs, err := grab(filepath.Join(dir, "b.db"), true)
+	if err != nil {
+		return fmt.Errorf("foreign wal: %w", err)
+	}
+	first, err := pristineRestore(env, filepath.Join(scratch, "pristine"), 1)
+	if err != nil {
+		return err
+	}
+	ownPath := filepath.Join(dir, "own.db")
+	if err := os.WriteFile(ownPath, first, 0o644); err != nil {
+		return err
+	}
+	ow, osh, err := grab(ownPath, false)
+	if err != nil {
+		return fmt.Errorf("own older wal: %w", err)
+	}
+	for _, k := range []struct {
+		kind     string
+		wal, shm []byte
+	}{{"foreign", fw, fs}, {"own", ow, osh}} {
+		for _, withShm := range []bool{false, true} {
+			for _, integ := range []int{0, 1, 2} {
+				k := k
+				add(Mut{Kind: "foreign-wal", WalKind: k.kind, WithShm: withShm, Integrity: integ}, func(j *restoreJob) {
+					j.plant, j.plant2, j.wantLogical = k.wal, k.shm, wantLogical
+				})
 			}
 		}
 	}
